@@ -65,6 +65,7 @@ Section Preserve.
   Theorem env_join_pres e av eids hs k ms : P e -> P (fst (env_join e av eids hs k ms)).
   Proof.
     intros H. unfold env_join. destruct (join_ok e k ms); cbn [negb]; [|assumption].
+    destruct (handles_ok hs k ms); cbn [negb]; [|assumption].
     destruct (forallb (m_registered e) ms); cbn [negb]; [|apply P_fail; assumption].
     destruct k as [lim|lim|n|h|i].
     - destruct (jkeys e eids ms) as [keys|]; [|assumption].
